@@ -18,3 +18,9 @@ package filesystem
 //@   modifies $none
 //@ iface github.com/goatcms/goatcore/filesystem.Filespace.IsExist(self, subPath) (ok)
 //@   modifies $none
+// a listing is a slice of non-nil entries owned by the caller, or nil with the error
+//@ iface github.com/goatcms/goatcore/filesystem.Filespace.ReadDir(self, subPath) (nodes, err)
+//@   modifies $none
+//@   ensures err == nil ==> forall(k, 0 <= k && k < len(nodes) ==> nodes[k] != nil)
+//@   ensures len(nodes) > 0 ==> fresh(arr(nodes))
+//@   ensures err != nil ==> len(nodes) == 0
